@@ -35,7 +35,10 @@ def r1_append_only(F, res):
                         n = callee(t)
                         where = "%s:%s" % (f.file, t["line"])
                         key = "%s/%s" % (f.path.split("generator::actions::")[-1], mir.strip_generics(mir.short(n)))
-                        if n.startswith("alloc::vec::Vec::<T, A>::push") and ai == 0:
+                        if ai == 0 and (n.startswith("alloc::vec::Vec::<T, A>::push") or (
+                                n.startswith("<alloc::vec::Vec<T, A> as core::iter::traits::collect::Extend<") and n.endswith(">::extend"))
+                                or n.startswith("alloc::vec::Vec::<T, A>::append") or n.startswith("alloc::vec::Vec::<T, A>::extend_from_slice")):
+                            # push / extend / append / extend_from_slice only ever add at the end
                             pushes += 1
                             res.ok(rid, key, where, "append")
                         elif "DerefMut" in n or n.endswith("::deref_mut"):
